@@ -463,13 +463,28 @@ func runC20(c *core.Ctx) {
 	if lateCand != nil {
 		_ = d.Signal(d.A, d.B, lateCand)
 	}
-	for i := 0; i < 400 && !c.Failed(); i++ {
+	// "when the exchange has quiesced": the backlog of the fault phase (duplicates, delayed datagrams, keepalives
+	// as frequent as the checks) is delivered without the clock advancing, so the suffix lasts until nothing
+	// is in flight any more - and at least 200 steps, so that ticks on both sides have run. A run whose backlog
+	// is not drained within the step budget is not judged.
+	// Nor is an instant at which nothing is in flight quiescence: the agents' timers are still owed (a
+	// controlled side that answered the latest nomination before its pair was valid validates the pair on
+	// the controlling side's next keepalive), so the suffix also lasts three simulated seconds - several
+	// keepalive and check intervals - beyond the end of the faults.
+	drained := false
+	suffixFrom := c.Now()
+	for i := 0; i < 6000 && !c.Failed(); i++ {
 		step(true)
-		if c.Now() > 0 && i > 200 && len(d.S.Eligible()) == 0 {
+		if i > 200 && c.Now()-suffixFrom >= 3*time.Second && len(d.S.Eligible()) == 0 {
+			drained = true
 			break
 		}
 	}
 	if c.Failed() {
+		return
+	}
+	if !drained {
+		c.Probe("fair-suffix-not-drained")
 		return
 	}
 	o.final()
